@@ -6,14 +6,15 @@ CONSTANTS NP = 2
   ProbeHws <- PHws
   InitSets <- Init2h
   MaxEarly = 1
-  D = 4
+  D = 0
 INIT Init
 NEXT Next
-CONSTRAINT Bound
+CONSTRAINT NotesBound4
 INVARIANT TypeOK
 INVARIANT CurIsOrigPlusNotes
 INVARIANT UntouchedAsReported
 INVARIANT ObservedTruth
+PROPERTY ObservedTruthA
 PROPERTY OnlyNamedPort
 PROPERTY FeaturesStartOver
 PROPERTY OthersLeaveAlone
